@@ -12,652 +12,774 @@ Definition show_fres (r : fres) : string :=
   end.
 Definition check (rs : list rune) : string := digest (show_fres (format_res rs)).
 Definition full (rs : list rune) : string := show_fres (format_res rs).
-Eval vm_compute in ("<<<M198>>>" ++ check (runes_of_ascii "root packet int {
-// @lengthOf(
-// " ++ [27880; 37322]%N ++ runes_of_ascii "
-@calculatedFrom( ""packet"")match repeatCount as asx {// packet A { u8 x, }
-65535:int ,
-"""":
-    packetx
-, [ 1, ""it's"", 007 , 3,
-    ""a\\"" , 65535 ] : o,
-[ 7 , 1 ]:
-    len [ ""abc""	,""" ++ [28040; 24687]%N ++ runes_of_ascii """ ] : u
-,} ,// packet A { u8 x, }
-@rightPad ( ' ' ) // " ++ [27880; 37322]%N ++ runes_of_ascii "
-len
-    body `{ , }` , }packet repeatCount { string
-trueish
-,@tag(
-0 )	repeat
-tag/// triple
-`{ , }` , // `tick` ""quote"" 'q'
-@tag(255 // @lengthOf(
-) match packetx as
-string_
-    {
-10 :roots, }//
+Eval vm_compute in ("<<<M1334>>>" ++ check (runes_of_ascii "// top
+options
+    // c0
+{ // c1
+LittleEndian // c2
+= false // c4
+; ArrayPrefixLenType =
+    // c7
+u8 ; FixedStringPadFromLeft // c10a
+  // c10b
+= // c11
+true // c12
+;
+    // c13
+FixedStringPadChar // c14
+= // c15
+'0' // c16
+; // c17
+}
+    // c18
+packet Heartbeat
+    // c20
+{ string // c22a
+  // c22b
+lastPx ,
+    // c24
+uint8 // c25a
+  // c25b
+Qty // c26a
+  // c26b
 ,
-@leftPad
-(
-'\x00'	)
-    @tag( 7 ) repeat i8 // packet A { u8 x, }
-rootA
-/// triple
-// " ++ [128512]%N ++ runes_of_ascii " emoji
-`it's` , uint8x tag`a\` ,
-char[] Z9_ @calculatedFrom( //x
-""" ++ [233]%N ++ runes_of_ascii "t" ++ [233]%N ++ runes_of_ascii """
-    )
-, repeat float32
-trueish	, @leftPad ( /// triple
-'\x00'	)	i64_
-    @calculatedFrom( ""x y""
-    ) //
-, repeat f32 Packet ,  }
-    packet u
-    // c
-    {int64 pack@lengthOf(metadata ) ,	repeat
-    char[//	t
-0123456789 ] int
-    ``
-    , @lengthOf(
-    Header  )@calculatedFrom(""`tick`""
-)	float
-    trueish , @calculatedFrom(	""`tick`""
-    // a // b
-    ) stringy ,// " ++ [128512]%N ++ runes_of_ascii " emoji
-repeat Logon  `it's`  ,
-int32  Z9_ @calculatedFrom(
-""\n""), match// c
-u8x as falsey {
-255 : f32a ,
-00:packetx
-, } ,
-zchar[	0 ] roots , @tag( 00) Logon {
-    i64_
-@lengthOf( MetaDataX //
-) ``
-    , repeat body
-MetaDataX `it's`, x { string rootA ``
-    // a // b
-    , repeat options1 f32a , }//
-, Pad
-, // `tick` ""quote"" 'q'
-} , @calculatedFrom( ""1""
-    // packet A { u8 x, }
-    )@lengthOf(T ) char[
-7 ]	pack	`{ , }`	, } MetaData u {
-} /// triple")).
-Eval vm_compute in ("<<<M384>>>" ++ check (runes_of_ascii "options {
-	StringPrefixLenType = u16;
-	ArrayPrefixLenType = u16;
-}
-
-packet SampleBinary {
-	uint16 MsgType `" ++ [28040; 24687; 31867; 22411]%N ++ runes_of_ascii "`,
-	u16 BodyLenght @lengthOf(Body) `" ++ [28040; 24687; 20307; 38271; 24230]%N ++ runes_of_ascii "`,
-	match MsgType as Body {
-		1 : Logon,
-		2 : Logout,
-		3 : Heartbeat,
-		4 : RiskControlRequest,
-		5 : RiskControlResponse,
-	},
-		@calculatedFrom(""CRC32"")
-	u32 Ckecksum `" ++ [26657; 39564; 21644]%N ++ runes_of_ascii "`,
-}
-
-packet Logon {
-	 @leftPad('0')
-	char[10] UserName `" ++ [29992; 25143; 21517]%N ++ runes_of_ascii "`,
-	string Password `" ++ [23494; 30721]%N ++ runes_of_ascii "`,
-	uint64 ClientId `" ++ [23458; 25143; 31471]%N ++ runes_of_ascii "ID`,
-	u16 HeartbeatInterval `" ++ [24515; 36339; 38388; 38548]%N ++ runes_of_ascii "`,
-}
-
-packet Logout {
-	  @rightPad('0')
-	char[10] UserName `" ++ [29992; 25143; 21517]%N ++ runes_of_ascii "`,
-	uint64 ClientId `" ++ [23458; 25143; 31471]%N ++ runes_of_ascii "ID`,
-}
-
-packet Heartbeat {
-}
-
-packet RiskControlRequest {
-	string UniqueOrderId `" ++ [21807; 19968; 35746; 21333; 21495]%N ++ runes_of_ascii "`,
-	char[16] ClOrdID `" ++ [23458; 25143; 35746; 21333; 21495]%N ++ runes_of_ascii "`,
-	char[3] MarketID `" ++ [24066; 22330]%N ++ runes_of_ascii "id`,
-	char[12] SecurityID `" ++ [35777; 21048; 20195; 30721]%N ++ runes_of_ascii "`,
-	char Side `" ++ [20080; 21334; 26041; 21521]%N ++ runes_of_ascii "`,
-	char OrderType `" ++ [35746; 21333; 31867; 22411]%N ++ runes_of_ascii "`,
-	u64 Price `" ++ [20215; 26684]%N ++ runes_of_ascii "`,
-	u32 Qty `" ++ [25968; 37327]%N ++ runes_of_ascii "`,
-	repeat string ExtraInfo `" ++ [38468; 21152; 20449; 24687]%N ++ runes_of_ascii "`,
-	repeat SubOrder {
-			char[16] ClOrdID `" ++ [23376; 35746; 21333; 21495]%N ++ runes_of_ascii "`,
-			u64 Price `" ++ [23376; 35746; 21333; 20215; 26684]%N ++ runes_of_ascii "`,
-			u32 Qty `" ++ [23376; 35746; 21333; 25968; 37327]%N ++ runes_of_ascii "`,
-		},
-}
-
-packet RiskControlResponse {
-	string UniqueOrderId `" ++ [21807; 19968; 35746; 21333; 21495]%N ++ runes_of_ascii "`,
-	i32 Status `" ++ [29366; 24577]%N ++ runes_of_ascii "`,
-	string Msg `" ++ [32467; 26524; 20449; 24687]%N ++ runes_of_ascii "`,
-	repeat Detail,
-}
-
-packet Detail {
-	string RuleName `" ++ [35268; 21017; 21517; 31216]%N ++ runes_of_ascii "`,
-	u16 Code `" ++ [21407; 22240; 20195; 30721]%N ++ runes_of_ascii "`,
-}")).
-Eval vm_compute in ("<<<M1610>>>" ++ check (runes_of_ascii "
-
-  options {
-StringPrefixLenType
-    =
-
-    u64 
-; ArrayPrefixLenType
-= u32; FixedStringPadFromLeft  =false ; 
-}	packet
-
-Party
-    {
-
-    zchar[  7
-
-]
-    OrderId, 
-InTail6 {repeat  char[
-1 ]	msgKind,  char[
-3	] 
-Tail, char[
-
-3
-
-]	Flags
-	, i16 
-tag7
-    , }
-, @rightPad
-
-    ('0')char[ 
-12
-	]
-
-    clOrdID
-, }	packet
-
-Quote	{
-	@leftPad  (
-    '0' )
-	char[
-	11]	price 
-,
-repeat
-InCount7 
-{ i32 
-x  ,
-Party
-    ,
-
-    u8 Ref ,
-u8
-tag7
-
-, }  ,
-
-char[]	seqNo
-,
-Party
-
-, }
+    // c27
+i64 Acct // c29
+, // c30a
+  // c30b
+char[ // c31
+4 // c32a
+  // c32b
+] Ref , // c35a
+  // c35b
+} // c36a
+  // c36b
 packet
-    Logon{
-@rightPad	(
-
-'\x00'
-
-    ) 
-char[
-
-    5]
-	Note,
-
-    i16 sym,InPrice72 { char[9
-
+    // c37
+Fill // c38
+{ // c39a
+  // c39b
+uint8 // c40a
+  // c40b
+Ref , Heartbeat // c43
+, // c44a
+  // c44b
+f32 OrderId , // c47a
+  // c47b
+repeat f32 // c49
+x , // c51
+} root packet // c54a
+  // c54b
+Order // c55a
+  // c55b
+{ // c56a
+  // c56b
+zchar[ // c57a
+  // c57b
+2 // c58
 ]
-
-Ref
-,	zchar[ 
-1	] venue
-, }
-    , 
-char[]	clOrdID	,  }
-
-    root
-packet  Reject
-
-{ 
-repeat
-Logon	, 
-@leftPad (
-
-' '
-	)
-	char[ 
-4
+    // c59
+OrderId // c60a
+  // c60b
+, zchar[
+    // c62
+2 // c63a
+  // c63b
+] // c64
+Acct // c65a
+  // c65b
+, zchar[ // c67
+1 // c68a
+  // c68b
 ]
-seqNo
-	,zchar[
-    5] Acct
-	, u32
-x , 
-u16
-
-    f1 @lengthOf(Body )
-,  match x  as
-
-    Body
-	{
-
-    [ 
-169 
+    // c69
+Note // c70
+, // c71a
+  // c71b
+zchar[
+    // c72
+9 // c73
+] // c74a
+  // c74b
+Qty // c75a
+  // c75b
+, // c76
+string
+    // c77
+price ,
+    // c79
+string // c80
+tag7
+    // c81
 ,
-	74]	:
-    Quote ,
-	45:	Party
-
-    , 7
-: Logon
+    // c82
+u32 // c83
+x // c84
 ,
-	}
-    ,	}
+    // c85
+match // c86a
+  // c86b
+x // c87a
+  // c87b
+as
+    // c88
+Body {
+    // c90
+123 // c91
+: Fill
+    // c93
+, 112 // c95
+: Heartbeat // c97
+, } // c99a
+  // c99b
+, // c100a
+  // c100b
+u32 // c101a
+  // c101b
+seqNo // c102
+@calculatedFrom( // c103
+""CRC32"" // c104a
+  // c104b
+) // c105
+,
+    // c106
+} // c107a
+  // c107b
 ")).
-Eval vm_compute in ("<<<M1798>>>" ++ check (runes_of_ascii "packet pack {
-    @lengthOf(Foo)
-    asx @lengthOf(_x),
-    u8 x_y_z `two words`,
-    repeat zchar[0] roots `
-    `,
-    lengthOf @calculatedFrom(""abc""),
-    @tag(3)
-    @rightPad(' ')
-    @calculatedFrom(""1"")
-    repeat uint64 i64_ `say ""hi""`,
-    @tag(007)
-    match roots as float {
-        ""a	b"" : lengthOf,
-        [
-            1, 42, ""\n"", ""a\""b"", ""\" ++ [233]%N ++ runes_of_ascii """,
-            ""1""
-        ] : msg_type,
-        """ ++ [128512]%N ++ runes_of_ascii """ : Foo,
-    },
-    T {
-        match Header as trueish {
-            [
-                0, 3, 00, 0123456789, ""{,}"",
-                ""1"", ""// no comment""
-            ] : As,
-        },
-    },
-    repeat char[10] o `
-    `,
-    @calculatedFrom(""`tick`"")
-    repeat crc {
-        repeatCount o,
-        u8x As,
-    },
+Eval vm_compute in ("<<<M1338>>>" ++ check (runes_of_ascii "// top
+options
+    // c0
+{ ArrayPrefixLenType = // c3
+u64 // c4a
+  // c4b
+; FixedStringPadFromLeft // c6a
+  // c6b
+= true ; // c9
+FixedStringPadChar =
+    // c11
+'0' ; // c13
+} // c14
+packet // c15a
+  // c15b
+Quote // c16
+{ // c17a
+  // c17b
 }
-
-packet pack {
-    @calculatedFrom(""" ++ [233]%N ++ runes_of_ascii "t" ++ [233]%N ++ runes_of_ascii """)
-    u32 f32a,
+    // c18
+packet
+    // c19
+Ack // c20a
+  // c20b
+{
+    // c21
+repeat InNote66 { u8 pad0
+    // c26
+, // c27a
+  // c27b
 }
-
-MetaData float {
-    u32 options1,
+    // c28
+, // c29
 }
-
-packet f32a {
-}")).
-Eval vm_compute in ("<<<M1425>>>" ++ check (runes_of_ascii "options {
-    StringPrefixLenType = u16;
-    ArrayPrefixLenType = u32;
+    // c30
+packet // c31a
+  // c31b
+Reject { // c33
+} // c34
+root // c35
+packet // c36
+Order { // c38
+Quote
+    // c39
+,
+    // c40
+repeat
+    // c41
+Reject
+    // c42
+,
+    // c43
+string venue , // c46a
+  // c46b
+string // c47a
+  // c47b
+seqNo
+    // c48
+,
+    // c49
+uint32 Ref // c51a
+  // c51b
+, // c52a
+  // c52b
+u16 lastPx
+    // c54
+, // c55
+u32
+    // c56
+clOrdID // c57
+@lengthOf( // c58
+Body ) ,
+    // c61
+match // c62a
+  // c62b
+lastPx as Body // c65
+{ // c66a
+  // c66b
+190 : Reject ,
+    // c70
+186 // c71
+: Quote // c73a
+  // c73b
+,
+    // c74
+22 // c75
+:
+    // c76
+Ack ,
+    // c78
+} // c79a
+  // c79b
+, // c80
+u16 // c81a
+  // c81b
+Flags // c82a
+  // c82b
+@calculatedFrom( ""CRC32"" ) ,
+    // c86
+} // c87a
+  // c87b
+")).
+Eval vm_compute in ("<<<M1841>>>" ++ check (runes_of_ascii "options {
     FixedStringPadFromLeft = true;
     FixedStringPadChar = '0';
+}
+
+packet Leg {
+    InPrice0 {
+        repeat string clOrdID,
+        int16 msgKind,
+        zchar[5] Px,
+    },
+    i16 f1,
+    repeat f64 Side2,
+    string Acct,
 }
 
 packet Cancel {
+    zchar[4] clOrdID,
+    string seqNo,
+    Leg,
+    @leftPad('0')
+    char[11] OrderId,
 }
 
-packet Party {
+packet Quote {
+    repeat char[4] sym,
+    f64 OrderId,
+    repeat Leg,
+    repeat i64 f1,
+    int16 Note,
+    zchar[3] count,
 }
+
+root packet Ack {
+    @leftPad(' ')
+    char[10] sym,
+    InPx60 {
+        Cancel,
+        repeat char[1] f1,
+        string Tail,
+        repeat InNote55 {
+            int8 count,
+            f64 f1,
+            repeat Cancel,
+        },
+        char[] tag7,
+        repeat string msgKind,
+    },
+    u8 lastPx,
+    match lastPx as Body {
+        152 : Quote,
+        173 : Cancel,
+        4 : Leg,
+    },
+    u16 Ref @calculatedFrom(""CR\
+    C32""),
+}")).
+Eval vm_compute in ("<<<M28>>>" ++ check (runes_of_ascii "options
+    { string_
+= false
+    ; falsey  = char[// " ++ [128512]%N ++ runes_of_ascii " emoji
+4294967296 ] ; } packet
+    zchar{match float as len { [ """ ++ [233]%N ++ runes_of_ascii "t" ++ [233]%N ++ runes_of_ascii """ ]:
+matchKey
+    , 3 : // " ++ [27880; 37322]%N ++ runes_of_ascii "
+u [ 4294967296
+, ""1"" ] :
+// `tick` ""quote"" 'q'
+// c
+zchar , } // c
+,} MetaData
+    // @lengthOf(
+    T {
+// c
+// a // b
+}	packet packetx  { uint16 uint8x @calculatedFrom( ""it's"" ) ,
+stringy { i16 crc
+`{ , }`	, }
+, zchar[ 00
+] x
+,
+    zchar{ uint64 tag , zchar
+f32a	`say ""hi""` , uint32 A `{ , }` , match _x as
+falsey
+{ [ 007// " ++ [128512]%N ++ runes_of_ascii " emoji
+,
+    """ ++ [128512]%N ++ runes_of_ascii """] :
+    matchKey// " ++ [128512]%N ++ runes_of_ascii " emoji
+[ 0123456789,3 ] : T
+// " ++ [128512]%N ++ runes_of_ascii " emoji
+// `tick` ""quote"" 'q'
+1: Foo ,
+}
+    ,// trailing space 
+} ,A ,
+    zchar[
+    // packet A { u8 x, }
+    4294967296 ] string_ @lengthOf( float ) ,match rootA as As
+    { [ ""it's"",
+255 , 0123456789 ,
+// packet A { u8 x, }
+//	t
+""" ++ [233]%N ++ runes_of_ascii "t" ++ [233]%N ++ runes_of_ascii """	, ""{,}"" ,	""abc""
+    , """ ++ [233]%N ++ runes_of_ascii "t" ++ [233]%N ++ runes_of_ascii """]:int, 4294967296 : tag , } , }
+")).
+Eval vm_compute in ("<<<M1423>>>" ++ check (runes_of_ascii "  options
+{
+
+    Header  = u32 ; }
+
+options	{ i8i8
+
+    = f64 ; 
+body  = 
+zchar[
+        // " ++ [128512]%N ++ runes_of_ascii " emoji
+	/// triple
+00	//
+  ]	;  } 
+  //
+
+MetaData
+
+    BodyLength{ // trailing space 
+
+}// " ++ [27880; 37322]%N ++ runes_of_ascii "
+    	options 
+{
+Logon
+
+    = u64 
+As
+
+=
+
+    true  i64_  = '\x00'
+;
+
+    }root
+
+    packet	asx
+{
+
+    @tag(
+    // `tick` ""quote"" 'q'
+//	t
+4294967296 )	roots
+@lengthOf(
+A )  ,
+repeat uint8
+
+    u128 ,int32
+    i64_
+
+,
+	u8  u
+`` 
+,  @lengthOf( 
+    // c
+  // c
+  len ) uint64
+	    //x
+
+  matchKey
+    ,	match	rootA
+
+    as
+
+    stringy {
+    1 :
+
+string_
+,7
+: charz 
+,255 :	u128
+
+, [// trailing space 
+
+	0 ,
+0123456789 ,
+
+    1	,
+    007]
+
+: len  ,10 :trueish
+	}	,
+@rightPad (
+
+    )char[
+    7	]
+    int//
+    @lengthOf(
+x
+    )
+`two words`
+    ,}
+")).
+Eval vm_compute in ("<<<M52>>>" ++ check (runes_of_ascii "  MetaData
+    // " ++ [27880; 37322]%N ++ runes_of_ascii "
+    packetx { zchar[ 7 ] leftPad
+`// not a comment` ,	}	packet i64_{@calculatedFrom(
+"""" )
+// trailing space 
+// c
+@lengthOf(
+x_y_z ) @tag( 00
+)
+repeatCount
+    // packet A { u8 x, }
+    @calculatedFrom(""1"" ), } packet falsey { int16
+_x
+@calculatedFrom(	""it's"") , } // @lengthOf(
+root
+packet matchKey
+    {repeat u32  Pad  `" ++ [233]%N ++ runes_of_ascii "`, zchar[ 7 ]
+    leftPad
+,match chars as lengthOf
+{ 1 :
+o
+    42 : chars
+// trailing space 
+// c
+,
+}//x
+, repeat
+zchar[
+    255]
+a1, matchKey //
+Packet
+    // `tick` ""quote"" 'q'
+    ,
+f32
+    tag
+    ,
+// @lengthOf(
+// trailing space 
+@calculatedFrom(  ""a\""b"" ) @leftPad( ' ' ) @lengthOf(
+T) stringy
+@lengthOf( o) ,packetx  i64_ ,}
+/// triple
+")).
+Eval vm_compute in ("<<<M58>>>" ++ check (runes_of_ascii "packet pack
+// c
+// packet A { u8 x, }
+{u8 a1
+// trailing space 
+/// triple
+`say ""hi""` // packet A { u8 x, }
+, @leftPad (
+'\x00' )  uint8 Logon	`
+` // `tick` ""quote"" 'q'
+,
+char[]lengthOf // " ++ [27880; 37322]%N ++ runes_of_ascii "
+`" ++ [233]%N ++ runes_of_ascii "` ,
+//
+//x
+repeat char[] As,
+    //	t
+    @lengthOf(string_ )  @calculatedFrom(
+""a\\"" )
+    repeat
+    u8x	o	, char string_ @calculatedFrom(
+""a\""b"" )
+`tab	here`
+    , repeat As { char[
+    // packet A { u8 x, }
+    0 ] i64_//	t
+@lengthOf( T)
+`" ++ [233]%N ++ runes_of_ascii "` , char[4294967296	]
+T @calculatedFrom( ""\" ++ [233]%N ++ runes_of_ascii """ )
+, trueish
+, repeat int
+{string Logon @calculatedFrom(	""1"" ) , metadata  ,
+uint32
+Z9_  , // " ++ [27880; 37322]%N ++ runes_of_ascii "
+} , },@tag( 00 ) //	t
+i16  a1 `a\`
+    ,
+    }
+")).
+Eval vm_compute in ("<<<M113>>>" ++ check (runes_of_ascii "options	{
+As
+= // packet A { u8 x, }
+' '}MetaData o{} root packet pack
+{ } packet tag // " ++ [128512]%N ++ runes_of_ascii " emoji
+{ match falsey as
+BodyLength	{ 4294967296
+:
+    lengthOf
+// c
+// " ++ [27880; 37322]%N ++ runes_of_ascii "
+,[ ""x y""
+,""a\\""
+    ]
+    : rootA , [
+42 , ""a	b"" ,
+    ""CRC32"" , 65535 ,""abc"" , 007 ]
+:
+u8x	""x y"" : A ,
+    /// triple
+    65535 :  i64_,
+    0123456789 :
+    Packet }
+    , @lengthOf(  msg_type)	pack msg_type,
+    @tag( 0 )@lengthOf( Packet
+)/// triple
+@tag(
+3 )
+//	t
+// " ++ [128512]%N ++ runes_of_ascii " emoji
+Foo , repeat float64 zchar, @calculatedFrom(
+""a\""b""
+) @lengthOf(A )@lengthOf( roots
+) options1 @lengthOf(
+Z9_ ),char[] T ,  }")).
+Eval vm_compute in ("<<<M1468>>>" ++ check (runes_of_ascii "// top
+options {
+    // c1
+    LittleEndian = true;// c5a
+}// c6
 
 packet Logon {
-}
+    u8 x,// c12
+}// c13a
 
-packet Ack {
-}
-
+// c13b
 packet Logout {
-    repeat InSym87 {
-        InClordid94 {
-            string clOrdID,
-        },
-        string Px,
-        i16 Qty,
-        repeat InCount71 {
-            repeat Cancel,
-            uint16 Tail,
-            char[2] x,
-            repeat string Ref,
-        },
-        Cancel,
+    // c16
+    u16 reason,// c19a
+}
+
+// c20
+root packet Frame {
+    // c24
+    u16 Kind,// c27a
+    // c27b
+    u16 Kind2,
+    match Kind as Body {
+        // c35
+        1 : Logon,
+        // c39
+        [
+            2, 3,
+            4
+        ] : Logout,
+        // c49
+        100 : Logon,
     },
-}
-
-root packet Order {
-    repeat string tag7,
-    @leftPad(' ')
-    char[3] Px,
-    u8 Qty,
-    match Qty as Body {
-        [28, 62] : Logon,
-        148 : Ack,
-        88 : Party,
-        184 : Cancel,
+    match Kind2 as Trailer {
+        // c60
+        0 : Logout,
     },
-    u16 Note @calculatedFrom(""CRC32""),
-}")).
-Eval vm_compute in ("<<<M1351>>>" ++ check (runes_of_ascii "options {
-    StringPrefixLenType = u8;
-    ArrayPrefixLenType = u32;
-    FixedStringPadFromLeft = true;
-    FixedStringPadChar = ' ';
-}
-packet Leg {
-}
-packet Heartbeat {
-    zchar[6] msgKind,
-    @rightPad('0') char[3] Qty,
-    zchar[9] Side2,
-    i8 Acct,
-}
-packet Logout {
-    int8 x,
-}
-packet Order {
-    char[] Acct,
-    zchar[8] count,
-    u32 OrderId,
-    uint8 lastPx,
-    u16 clOrdID,
-    zchar[7] Note,
-}
-root packet Reject {
-    @leftPad(' ') char[8] Side2,
-    i8 clOrdID,
-    repeat f32 x,
-    u32 lastPx,
-    match lastPx as Body {
-        [30, 147] : Heartbeat,
-        134 : Leg,
-        183 : Logout,
-        40 : Order,
-    },
-    u16 Ref @calculatedFrom(""CRC32""),
-}
-")).
-Eval vm_compute in ("<<<M1666>>>" ++ check (runes_of_ascii "  packet
-Logon	{
-    repeatCount
-    {
-BodyLength
-	`crlf
-line` , }
-
-    ,
-zchar 
-a1
-	`u8 x,` 
-,match Foo
-as
-Foo	{
-
-    ""\n""
-
-    :
-
-i8i8 ,
-
-    [
-""abc""
-	,  // trailing space 
-""CRC32""
-
-]
-    /// triple
-	  // " ++ [128512]%N ++ runes_of_ascii " emoji
-:	// @lengthOf(
-  	crc
-
-    [ 
-3
-,
-    //
-	// " ++ [128512]%N ++ runes_of_ascii " emoji
-    ""x y""
-,
-
-    42, ""`tick`""
-
-, 1  ,
-""a\""b"",
-
-    ""CRC32""
-	, 255]	: repeatCount
-
-    ,	[// " ++ [128512]%N ++ runes_of_ascii " emoji
-
-1 
-
-// a // b
-    // " ++ [27880; 37322]%N ++ runes_of_ascii "
-	  ,007
-,
-    ""\n"",007
-	,
-
-    7  ,  ""// no comment""
-	, 255 ] 
-: uint8x 00
-
-:f32a, 
-}
-
-,
-
-    // a // b
-  uint16  Pad @lengthOf(uint8x  )	// packet A { u8 x, }
-    `doc`
-
-    ,
-    }")).
-Eval vm_compute in ("<<<M65>>>" ++ check (runes_of_ascii "packet leftPad {
-match A as x {""`tick`""
-    : MetaDataX //
-, [""it's""
-,""\n"" ,
-""" ++ [28040; 24687]%N ++ runes_of_ascii """ ] :
-string_ , 0123456789 : o ,
-[
-""{,}"", ""x y"" ]
-:uint8x	} , char[3	] msg_type// " ++ [128512]%N ++ runes_of_ascii " emoji
-@lengthOf( u
-//	t
+}// c67")).
+Eval vm_compute in ("<<<M307>>>" ++ check (runes_of_ascii "  packet	charz	{
 // " ++ [27880; 37322]%N ++ runes_of_ascii "
-)`two words` ,
-    // c
-    repeat
-    int
-// packet A { u8 x, }
-// @lengthOf(
-Foo ,
-@rightPad
-(
-    )
-@rightPad
-( ' ' )
-    Foo charz`{ , }`, }
-MetaData A {
-zchar[
-0 ]A `{ , }`
-    , float32 a1
-    //
-    ,
-    char[]  pack , /// triple
-string body `" ++ [233]%N ++ runes_of_ascii "` , string chars `doc` , int _x`two words`
-,} options { Z9_ =
-    uint16 ; }")).
-Eval vm_compute in ("<<<M294>>>" ++ check (runes_of_ascii "options { rootA = 4294967296 ; falsey = ""a\""b""
-;
-As =
-// @lengthOf(
 /// triple
-""""
-;packetx
-    = ""packet"" i8i8 =true ;
-} // `tick` ""quote"" 'q'
-packet x  { repeat zchar
-rootA , char[]
-    pack  `// not a comment`
-,@tag( 00 )
-@tag( 0123456789)
-u @calculatedFrom( ""packet"" )`u8 x,` , Header{
-    zchar[ 00
-    ] body
+repeat // c
+string int `" ++ [28040; 24687; 31867; 22411]%N ++ runes_of_ascii "` , @calculatedFrom( ""it's"" ) @tag(
+255 )  f64 // a // b
+asx
 ,
-    a1	@calculatedFrom( // " ++ [128512]%N ++ runes_of_ascii " emoji
-""it's"" )
-`" ++ [233]%N ++ runes_of_ascii "`, }, } // " ++ [27880; 37322]%N ++ runes_of_ascii "
+string
+T `doc` ,zchar[
+007 ]tag @lengthOf( //
+Z9_ )`// not a comment` , }
+options{ u= u16; }
 MetaData
-    A // a // b
-{zchar /// triple
-matchKey
-    `` , int64 metadata ,char[] _x //	t
-, }
-")).
-Eval vm_compute in ("<<<M1420>>>" ++ check (runes_of_ascii "options {
-    float = char[]
-}// packet A { u8 x, }
-
-root packet Logon {
-    @tag(1)
-    @calculatedFrom(""packet"")
-    zchar[3] Z9_,
-    @lengthOf(charz)
-    @calculatedFrom(""1"")
-    match roots as int {
-        ""a	b"" : MetaDataX,
-    },
-    @calculatedFrom(""a\""b"")
-    match asx as lengthOf {
-        """ ++ [128512]%N ++ runes_of_ascii """ : _x,
-        [255] : BodyLength,
-        3 : u8x,
-        0123456789 : T,
-    },
-    len @lengthOf(leftPad) `u8 x,`,
-}// @lengthOf(")).
-Eval vm_compute in ("<<<M101>>>" ++ check (runes_of_ascii "MetaData T {  a1 Packet,// " ++ [128512]%N ++ runes_of_ascii " emoji
-uint8x
+    chars
+    { i16 falsey , f64 pack,
+    char[  1
+    ]
+asx
+`it's`, char[] body ,
+// `tick` ""quote"" 'q'
+//x
+}packet leftPad { @rightPad
+(
 // @lengthOf(
 //x
-Pad `" ++ [233]%N ++ runes_of_ascii "` , a1
-    // " ++ [27880; 37322]%N ++ runes_of_ascii "
-    MetaDataX ,	zchar[00]metadata`u8 x,` ,Pad// trailing space 
-x `
-` ,
-    i8
-u8x ,
-}  options { As =
-    false;}root packet options1 { @calculatedFrom( ""// no comment"" ) @lengthOf( _x	)
-    @tag(007 ) repeat
-// trailing space 
-// @lengthOf(
-f32 i8i8
-    `" ++ [233]%N ++ runes_of_ascii "` ,
-    @rightPad	( ' '// " ++ [27880; 37322]%N ++ runes_of_ascii "
-) repeat Pad , }
+)
+repeat Pad float
+    `{ , }`
+,
+    }	options {
+    roots= true;  }
 ")).
-Eval vm_compute in ("<<<M1723>>>" ++ check (runes_of_ascii "// top
-options {
-    // c1a
-    // c1b
-    FixedStringPadChar = '0';
+Eval vm_compute in ("<<<M1325>>>" ++ check (runes_of_ascii "
+options{	LittleEndian  =
+	false	;
+StringPrefixLenType 
+=
+u8
+	;
+ArrayPrefixLenType = u64
+; FixedStringPadFromLeft
+=
+
+false ; 
+FixedStringPadChar = ' ' ;	}
+packet 
+Reject
+
+    {  repeat
+	char[
+
+    4
+
+] seqNo ,
+
+string Px ,
+
+}
+root
+	packet
+	Trade{
+	@rightPad
+( '0'
+    )
+char[  2 ] msgKind
+
+, repeat
+f64 price	,
+    InAcct79
+
+{
+
+    repeat
+Reject, zchar[	7	]OrderId , } 
+,
+    Reject  , 
+}
+")).
+Eval vm_compute in ("<<<M235>>>" ++ check (runes_of_ascii "packet crc
+// a // b
+//x
+{	u128
+    packetx , // " ++ [128512]%N ++ runes_of_ascii " emoji
+match roots	as
+    //
+    falsey
+{ 0123456789 // a // b
+: Header ""packet""// a // b
+: // a // b
+Z9_	3 : A ,
+// trailing space 
+// a // b
+""a	b""  : roots 10
+:  _x
+, } , @tag( 255// a // b
+) match
+calculatedFrom  as	o {
+    255 : string_ """ ++ [28040; 24687]%N ++ runes_of_ascii """ : i64_
+,	} , }MetaData
+T
+{ float64 u	,} packet Pad { /// triple
+}
+")).
+Eval vm_compute in ("<<<M1350>>>" ++ check (runes_of_ascii "options {
+
+    LittleEndian=  false
+
+;
+    StringPrefixLenType=  u16	;	} packet
+Heartbeat
+{
+
+@rightPad(
+'0'
+    )  char[ 7]
+    seqNo 
+,
+
+    uint64 
+Tail , i16
+    Flags,
+
+    u16 
+msgKind,
+}  root
+
+    packet
+
+Reject 
+{	zchar[
+
+    3 
+]
+
+tag7 
+,	repeat 
+Heartbeat	,
+
+    repeat string
+    clOrdID
+,
+    } ")).
+Eval vm_compute in ("<<<M1526>>>" ++ check (runes_of_ascii "  packet Z9_ {@calculatedFrom(
+""packet""
+
+)
+	char  //
+  BodyLength ,
+	match
+chars
+
+    as falsey{
+[
+65535
+
+    ,
+        // c
+	""" ++ [128512]%N ++ runes_of_ascii """, 
+""" ++ [28040; 24687]%N ++ runes_of_ascii """,""`tick`"", 10 ,
+	""a\\""
+
+,  ""a\""b""	// @lengthOf(
+
+] : 
+repeatCount
+,
+""x y""
+	:
+chars
+,  // " ++ [128512]%N ++ runes_of_ascii " emoji
+65535
+	: 	 //x
+  calculatedFrom  ,
+
+    }  , 
 }
 
-packet Q {
-    // c9a
-    // c9b
-    zchar[4] z,// c14
-    @rightPad('\x00')
-    // c18a
-    // c18b
-    char[3] n,
-    // c23
-    char[5] d,
-}// c29a
-
-// c29b
-root packet R {
-    // c33
-    Q,// c35a
-    // c35b
-    zchar[8] top,// c40a
-    // c40b
-    repeat zchar[2] zs,// c46a
-}// c47")).
-Eval vm_compute in ("<<<M109>>>" ++ check (runes_of_ascii "MetaData Header{ } packet crc {	match zchar as leftPad // `tick` ""quote"" 'q'
-{ 7 : As 0 : Packet , [
-00 // " ++ [128512]%N ++ runes_of_ascii " emoji
-]
-: Pad ,
-//x
-//x
-""// no comment""
-    :
-    calculatedFrom
-,	3
-    :
-string_ , } ,falsey  packetx `crlf
-line` , // " ++ [27880; 37322]%N ++ runes_of_ascii "
-@tag( 42 )repeat
-u64 packetx,
-@calculatedFrom(  ""1"" ) repeat u16 calculatedFrom, }
 ")).
-Eval vm_compute in ("<<<M32>>>" ++ check (runes_of_ascii "packet int { T/// triple
-{ repeat _x ,	} ,
-    i64_ _x
-    `
-`, @calculatedFrom( ""x y"" )u32 A
-,  match a1 as
-    i8i8 { [ ""1""
-,
-4294967296
-]:
-    a1 ,"""":	a1
-    , 007: a1 , [ ""CRC32"" ] :Header} , int64 As, int8 a1 , //
-char[] float
-`tab	here`/// triple
-,
-repeat zchar[ 1	]u8x,
-} /// triple")).
 Eval vm_compute in ("<<<M1250>>>" ++ check (runes_of_ascii "// top
 packet
     // c0
@@ -688,327 +810,361 @@ u8 x ,
 } // c17a
   // c17b
 ")).
-Eval vm_compute in ("<<<M214>>>" ++ check (runes_of_ascii "MetaData tag {body Packet	, int16 // @lengthOf(
-body // `tick` ""quote"" 'q'
-, f32a uint8x , } packet falsey {
-x { char[ 7 ] lengthOf , char[] o
-    `say ""hi""`
-    // `tick` ""quote"" 'q'
-    ,
-//
-/// triple
+Eval vm_compute in ("<<<M1373>>>" ++ check (runes_of_ascii "packet Sub {
+    u8 a,
+    @calculatedFrom(""CRC16"") i32 SubSum,
 }
-,}
-// `tick` ""quote"" 'q'
+root packet Frame {
+    u16 MsgType,
+    u16 BodyLen @lengthOf(Body),
+    Sub Body,
+    string note,
+    @calculatedFrom(""CRC16"") i32 Checksum,
+    u8 tail,
+}
 ")).
-Eval vm_compute in ("<<<M1470>>>" ++ check (runes_of_ascii "packet f32a {
-    @rightPad('0')
-    @lengthOf(BodyLength)
-    uint8 Foo ``,
-    //x
-    char[] options1 @calculatedFrom(""it's""),
-    @tag(255)
-    uint64 Header @calculatedFrom(""abc"") `
-    `,
+Eval vm_compute in ("<<<M26>>>" ++ check (runes_of_ascii "root packet body { repeat // c
+i8i8
+`it's`
+,}
+packet chars
+{@rightPad
+    (  '\x00' )
+    // `tick` ""quote"" 'q'
+    leftPad {
+    char[ 10
+]
+    asx `" ++ [233]%N ++ runes_of_ascii "`, }
+    // trailing space 
+    ,
+}
+")).
+Eval vm_compute in ("<<<M1301>>>" ++ check (runes_of_ascii "
+
+  packet A
+{u8 a
+
+    ,
+	} packet 
+B { u16
+
+    b , }root packet P
+
+    {u8 K
+    , match
+    K as M
+	{ [ 1
+,
+	2 ]: 
+A
+
+    ,
+
+3 :B
+    ,	7
+    : A,
+	}
+	,  }
+
+")).
+Eval vm_compute in ("<<<M1613>>>" ++ check (runes_of_ascii "
+packet  i64_
+
+    {}MetaData
+uint8x
+    {Packet 
+tag
+	,
+
+u8  repeatCount
+
+,  x_y_z	_x
+
+`" ++ [233]%N ++ runes_of_ascii "`
+	,
+
+    zchar[
+
+    42]	crc `a\`
+
+    ,	} 
+options
+	{
+
+}
+")).
+Eval vm_compute in ("<<<M1889>>>" ++ check (runes_of_ascii "packet A {
+    Inner {
+        match k as n {
+            [
+                1, 22, 007, 4, 5,
+                66, 7
+            ] : B,
+        },
+    },
 }")).
-Eval vm_compute in ("<<<M1559>>>" ++ check (runes_of_ascii "packet A {
+Eval vm_compute in ("<<<M548>>>" ++ check (runes_of_ascii "packet uint8x
+{ match pack
+    as msg_type	{
+    0123456789 :	float
+}
+,
+} packet //	t
+a1
+    { } options {packetx
+    ''= '\x00'	; u128= ""a	b""  ; }
+")).
+Eval vm_compute in ("<<<M448>>>" ++ check (runes_of_ascii "packet uint8x
+{ match pack
+    as msg_type	{
+    0123456789 :	float
+=
+,
+} packet //	t
+a1
+    { } options {packetx
+    = '\x00'	; u128= ""a	b""  ; }
+")).
+Eval vm_compute in ("<<<M483>>>" ++ check (runes_of_ascii "packet uint8x
+{ match pack
+    as msg_type	{
+    0123456789 :	float
+}
+,
+} packet //	t
+a1
+    { } '\x00' {packetx
+    = '\x00'	; u128= ""a	b""  ; }
+")).
+Eval vm_compute in ("<<<M703>>>" ++ check (runes_of_ascii "// @lengthOf(
+packet i8i8 { u128 o , }
+options '1'{ MetaDataX = true;
+    BodyLength =""packet"" x_y_z= 007
+crc //x
+= ""abc"" ;
+    msg_type =
+i16 }")).
+Eval vm_compute in ("<<<M1530>>>" ++ check (runes_of_ascii "packet A {
     match k as n {
         [
-            22, 4, 66, 8, 10,
-            12, ""a"", ""c c"", ""e"", ""g"",
-            ""i"", ""k""
+            1, 007, 5, 7, 9,
+            ""bb"", ""d"", ""f"", ""h"", ""j""
         ] : B,
         2 : C,
     },
 }")).
-Eval vm_compute in ("<<<M187>>>" ++ check (runes_of_ascii "
-options// " ++ [27880; 37322]%N ++ runes_of_ascii "
-{
-f32a= ""a\""b""//x
-; Z9_ = // " ++ [27880; 37322]%N ++ runes_of_ascii "
-""`tick`""	Logon
-    // " ++ [27880; 37322]%N ++ runes_of_ascii "
-    =""CRC32""u128= f64 ;rootA	=
-false ;} //	t
-packet lengthOf {
-} MetaData len { }
-")).
-Eval vm_compute in ("<<<M413>>>" ++ check (runes_of_ascii "packet uint8x
-{ match float32
-    as msg_type	{
-    0123456789 :	float
-}
-,
-} packet //	t
-a1
-    { } options {packetx
-    = '\x00'	; u128= ""a	b""  ; }
-")).
-Eval vm_compute in ("<<<M542>>>" ++ check (runes_of_ascii "$ packet uint8x
-{ match pack
-    as msg_type	{
-    0123456789 :	float
-}
-,
-} packet //	t
-a1
-    { } options {packetx
-    = '\x00'	; u128= ""a	b""  ; }
-")).
-Eval vm_compute in ("<<<M432>>>" ++ check (runes_of_ascii "packet uint8x
-{ match pack
-    as msg_type	{
-    : 0123456789	float
-}
-,
-} packet //	t
-a1
-    { } options {packetx
-    = '\x00'	; u128= ""a	b""  ; }
-")).
-Eval vm_compute in ("<<<M468>>>" ++ check (runes_of_ascii "packet uint8x
-{ match pack
-    as msg_type	{
-    0123456789 :	float
-}
-,
-} packet //	t
-,
-    { } options {packetx
-    = '\x00'	; u128= ""a	b""  ; }
-")).
-Eval vm_compute in ("<<<M410>>>" ++ check (runes_of_ascii "packet uint8x
-{ match 
-    as msg_type	{
-    0123456789 :	float
-}
-,
-} packet //	t
-a1
-    { } options {packetx
-    = '\x00'	; u128= ""a	b""  ; }
-")).
-Eval vm_compute in ("<<<M551>>>" ++ check (runes_of_ascii "packet uint8x
-{ match pack
-    as " ++ [21517; 23383]%N ++ runes_of_ascii "	{
-    0123456789 :	float
-}
-,
-} packet //	t
-a1
-    { } options {packetx
-    = '\x00'	; u128= ""a	b""  ; }
-")).
-Eval vm_compute in ("<<<M185>>>" ++ check (runes_of_ascii "root packet lengthOf{ @leftPad
-    (
-' '// c
-)
-repeat char MetaDataX
-,
-}MetaData
-Pad {
-msg_type rootA// trailing space 
-`// not a comment`, }")).
-Eval vm_compute in ("<<<M1645>>>" ++ check (runes_of_ascii "// top
-      root  
-      // c0
-	packet// c1a
-
-// c1b
-  P  
-      // c2
-    	{ 	 // c3
-  string s 	 // c5a
-	// c5b
-
-,
-
-    // c6
-    }")).
-Eval vm_compute in ("<<<M514>>>" ++ check (runes_of_ascii "packet uint8x
-{ match pack
-    as msg_type	{
-    0123456789 :	float
-}
-,
-} packet //	t
-a1
-    { } options {packetx
-    = '\x00'	;")).
-Eval vm_compute in ("<<<M1509>>>" ++ check (runes_of_ascii "MetaData leftPad {
-    chars MetaDataX,
-}
-
-packet repeatCount {
-    char[255] uint8x `" ++ [233]%N ++ runes_of_ascii "`,
-}
-
-MetaData pack {
-    As Foo,
+Eval vm_compute in ("<<<M710>>>" ++ check (runes_of_ascii "// @lengthOf(
+packet i8i8 { u128 o , }
+options { MetaDataX = true;
+    BodyLength =""packet"" x_y_z= 007
+crc //x
+= ""abc"" ;
+    msg_type 
+i16 }")).
+Eval vm_compute in ("<<<M659>>>" ++ check (runes_of_ascii "// @lengthOf(
+packet i8i8 { u128 o , }
+options { MetaDataX = true;
+    " ++ [21517; 23383]%N ++ runes_of_ascii " =""packet"" x_y_z= 007
+crc //x
+= ""abc"" ;
+    msg_type =
+i16 }")).
+Eval vm_compute in ("<<<M1780>>>" ++ check (runes_of_ascii "MetaData leftPad {
+    string u128 `say ""hi""`,
+    A packetx,
+    char[42] leftPad `tab	here`,
+    i16 crc,
+    string uint8x,
 }")).
-Eval vm_compute in ("<<<M1155>>>" ++ check (runes_of_ascii "MetaData leftPad { chars MetaDataX , } // c
-packet repeatCount { char[ 255 ] uint8x `" ++ [233]%N ++ runes_of_ascii "` , } MetaData pack { As Foo , }")).
-Eval vm_compute in ("<<<M1187>>>" ++ check (runes_of_ascii "MetaData leftPad { chars MetaDataX , } packet repeatCount { char[ 255 ] uint8x `" ++ [233]%N ++ runes_of_ascii "` , } MetaData pack { As Foo , // c
+Eval vm_compute in ("<<<M1645>>>" ++ check (runes_of_ascii "root packet string_ {
+    repeat char[00] rootA,
+}
+
+MetaData u {
+    i32 options1,
+}
+
+MetaData rootA {
+    u16 chars,
 }")).
-Eval vm_compute in ("<<<M915>>>" ++ check (runes_of_ascii "packet A {
-  match k as n {
-    [""a"", ""bb"", 007, ""d"", ""e"", 66, ""g"", ""h"", 9, ""j"", ""k"", 12] : B
-    2 : C
-  },
-}")).
-Eval vm_compute in ("<<<M897>>>" ++ check (runes_of_ascii "packet A {
-  match k as n {
-    [""a"", 22, ""c c"", 4, ""e"", 66, ""g"", 8, ""i"", 10, ""k""] : B,
-    2 : C
-  },
-}")).
-Eval vm_compute in ("<<<M956>>>" ++ check (runes_of_ascii "packet A {
-    Inner {
-        u8 x `
-x`,
-        Deep {
-            u8 y `
-x`,
-        },
+Eval vm_compute in ("<<<M1171>>>" ++ check (runes_of_ascii "MetaData leftPad { chars MetaDataX , } packet repeatCount { char[ 255 ] uint8x `" ++ [233]%N ++ runes_of_ascii "` // c
+, } MetaData pack { As Foo , }")).
+Eval vm_compute in ("<<<M967>>>" ++ check (runes_of_ascii "packet A {
+    match k as n {
+        ""x\
+y"" : B,
+        [""x\
+y"", 1] : C,
+        [1,2,3,4,5,""x\
+y""] : D,
     },
 }")).
-Eval vm_compute in ("<<<M568>>>" ++ check (runes_of_ascii "
-packet
-    asx {match match u128 as lengthOf
-{
-//	t
-// `tick` ""quote"" 'q'
-255 : x ,
-    } ,	}")).
-Eval vm_compute in ("<<<M1710>>>" ++ check (runes_of_ascii "options {
-    _x = ""`tick`"";
-    matchKey = ""it's"";
-    options1 = u16;
-    stringy = true
+Eval vm_compute in ("<<<M919>>>" ++ check (runes_of_ascii "packet A {
+    u16 len @lengthOf(body) `a
+b`,
+    u32 crc @calculatedFrom(""CRC32"") `a
+b`,
+    string body,
 }")).
-Eval vm_compute in ("<<<M858>>>" ++ check (runes_of_ascii "packet A {
+Eval vm_compute in ("<<<M912>>>" ++ check (runes_of_ascii "packet A {
   match k as n {
-    [""a"", 22, ""c c"", 4, ""e"", 66, ""g"", 8] : B,
+    [1, 22, ""c c"", 4, 5, ""f"", 7, 8, ""i"", 10, 11, ""l""] : B,
     2 : C
   },
 }")).
-Eval vm_compute in ("<<<M622>>>" ++ check (runes_of_ascii "
+Eval vm_compute in ("<<<M1914>>>" ++ check (runes_of_ascii "packet	A
+    {
+
+match  k
+
+    as n
+
+{
+
+    [
+
+    ""a""
+	,  22
+]
+
+    :
+B  , 2
+:  C } ,
+}
+")).
+Eval vm_compute in ("<<<M600>>>" ++ check (runes_of_ascii "
 packet
     asx {match u128 as lengthOf
 {
 //	t
 // `tick` ""quote"" 'q'
-255 : x ,
-    } ,	")).
-Eval vm_compute in ("<<<M969>>>" ++ check (runes_of_ascii "packet A {
-    u32 crc @calculatedFrom(""x\
-y""),
-    @calculatedFrom(""x\
-y"") u8 y,
-}")).
-Eval vm_compute in ("<<<M748>>>" ++ check (runes_of_ascii "options match @lengthOf( options char[] zchar[ MetaData f32 f64 u16 ""{,}"" `doc` (")).
-Eval vm_compute in ("<<<M125>>>" ++ check (runes_of_ascii "//	t
-options {
-    roots  =  ""\n""	; o
-    //
-    = '0' ;
-tag
-    =true
-    }")).
-Eval vm_compute in ("<<<M1249>>>" ++ check (runes_of_ascii "packet Inner {
-    u8 a,
-}
-root packet P {
-    Inner ref_obj,
-    u8 x,
-}
-")).
-Eval vm_compute in ("<<<M108>>>" ++ check (runes_of_ascii "packet int {}
-options {leftPad ='0' ;metadata= char[] Foo=
-'0' ; }
-")).
-Eval vm_compute in ("<<<M1717>>>" ++ check (runes_of_ascii "MetaData leftPad {
-    char[] body,
-    As options1,
-    o i64_,
-}")).
-Eval vm_compute in ("<<<M189>>>" ++ check (runes_of_ascii "
+255 packet x ,
+    } ,	}")).
+Eval vm_compute in ("<<<M560>>>" ++ check (runes_of_ascii "
 packet
-i64_ { @tag( 0123456789 ) repeat u16 stringy
+    false {match u128 as lengthOf
+{
+//	t
+// `tick` ""quote"" 'q'
+255 : x ,
+    } ,	}")).
+Eval vm_compute in ("<<<M555>>>" ++ check (runes_of_ascii "
+asx
+    packet {match u128 as lengthOf
+{
+//	t
+// `tick` ""quote"" 'q'
+255 : x ,
+    } ,	}")).
+Eval vm_compute in ("<<<M879>>>" ++ check (runes_of_ascii "packet A {
+  match k as n {
+    [1, 22, 007, 4, 5, 66, 7, 8, 9, 10] : B
+    2 : C
+  },
+}")).
+Eval vm_compute in ("<<<M1649>>>" ++ check (runes_of_ascii "
+packet
+	A
+
+{match  k as n
+    {	[
+1
+	,
+	""bb""
 ,
-    }")).
-Eval vm_compute in ("<<<M1756>>>" ++ check (runes_of_ascii "  MetaData 
-M	{
+    007 ,""d"" ]: B 
+2	: C}
+	,
+    }
+")).
+Eval vm_compute in ("<<<M830>>>" ++ check (runes_of_ascii "packet A {
+  match k as n {
+    [1, ""bb"", 007, ""d"", 5, ""f""] : B,
+    2 : C
+  },
+}")).
+Eval vm_compute in ("<<<M802>>>" ++ check (runes_of_ascii "packet A {
+  match k as n {
+    [""a"", ""bb"", ""c c"", ""d""] : B,
+    2 : C
+  },
+}")).
+Eval vm_compute in ("<<<M601>>>" ++ check (runes_of_ascii "
+packet
+    asx {match u128 as lengthOf
+{
+//	t
+// `tick` ""quote"" 'q'
+255")).
+Eval vm_compute in ("<<<M1431>>>" ++ check (runes_of_ascii "// top
+packet body {
+    i32 f32a `{ , }`,
+}
+
+// c7
+options {
+}// c10a")).
+Eval vm_compute in ("<<<M788>>>" ++ check (runes_of_ascii "packet A {
+  match k as n {
+    [1, 22, 007] : B
+    2 : C
+  },
+}")).
+Eval vm_compute in ("<<<M825>>>" ++ check (runes_of_ascii "packet A { Inner { match k as n { [1,22,007,4,5] : B, }, }, }")).
+Eval vm_compute in ("<<<M774>>>" ++ check (runes_of_ascii "packet A {
+  match k as n {
+    [1] : B
+    2 : C
+  },
+}")).
+Eval vm_compute in ("<<<M1205>>>" ++ check (runes_of_ascii "packet body { i32 // c
+f32a `{ , }` , } options { }")).
+Eval vm_compute in ("<<<M347>>>" ++ check (runes_of_ascii "packet As{
+/// triple
+// packet A { u8 x, }
+}
+
+")).
+Eval vm_compute in ("<<<M1456>>>" ++ check (runes_of_ascii "  root
+    packet  A{
 u8
 	x
-    `a
-b`
-	,
-    T 
-t	`a
-b` ,  }
-
-")).
-Eval vm_compute in ("<<<M963>>>" ++ check (runes_of_ascii "MetaData M {
-    u8 x `tab
-	x`,
-    T t `tab
-	x`,
-}")).
-Eval vm_compute in ("<<<M1671>>>" ++ check (runes_of_ascii "MetaData M {
-    u8 x `
-    `,
-    T t `
-    `,
-}")).
-Eval vm_compute in ("<<<M1506>>>" ++ check (runes_of_ascii "options // c
-{ 
-MetaDataX = int16
-
-    }
-
-")).
-Eval vm_compute in ("<<<M1560>>>" ++ check (runes_of_ascii "
-
-  root  packet	A 
-{
-
-u8
-	x 
 `a
-b`
-,} ")).
-Eval vm_compute in ("<<<M1490>>>" ++ check (runes_of_ascii "
-packet	A 
-{ u8
-    x`a
-b`
-	,  }")).
-Eval vm_compute in ("<<<M993>>>" ++ check (runes_of_ascii "packet A {
- u8 x `d" ++ [133]%N ++ runes_of_ascii "`, // c" ++ [133]%N ++ runes_of_ascii "
-}")).
-Eval vm_compute in ("<<<M1820>>>" ++ check (runes_of_ascii "MetaData
-    i64_
-    {
-	}
-")).
-Eval vm_compute in ("<<<M1739>>>" ++ check (runes_of_ascii "// c" ++ [8287]%N ++ runes_of_ascii "
-	packet
-A
+b`  , }
 
-{ }
 ")).
-Eval vm_compute in ("<<<M1902>>>" ++ check (runes_of_ascii "root packet chars {
+Eval vm_compute in ("<<<M1650>>>" ++ check (runes_of_ascii "
+root
+packet
+
+    msg_type 
+{	}
+
+")).
+Eval vm_compute in ("<<<M952>>>" ++ check (runes_of_ascii "root packet A {
+    u8 x `x
+`,
 }")).
-Eval vm_compute in ("<<<M977>>>" ++ check (runes_of_ascii "// c 
-packet A {
+Eval vm_compute in ("<<<M1018>>>" ++ check (runes_of_ascii "packet A {
+ u8 x `d" ++ [8233]%N ++ runes_of_ascii "`, // c" ++ [8233]%N ++ runes_of_ascii "
 }")).
-Eval vm_compute in ("<<<M1059>>>" ++ check (runes_of_ascii "packet A {
-}// c x")).
-Eval vm_compute in ("<<<M1227>>>" ++ check (runes_of_ascii "packet
+Eval vm_compute in ("<<<M929>>>" ++ check (runes_of_ascii "packet A {
+    u8 x `
+`,
+}")).
+Eval vm_compute in ("<<<M1112>>>" ++ check (runes_of_ascii "MetaData tag { }
 // c
-x { }")).
-Eval vm_compute in ("<<<M376>>>" ++ check (runes_of_ascii "
-// " ++ [128512]%N ++ runes_of_ascii " emoji
 ")).
+Eval vm_compute in ("<<<M1137>>>" ++ check (runes_of_ascii "MetaData u { }
+// c
+")).
+Eval vm_compute in ("<<<M996>>>" ++ check (runes_of_ascii "packet A {
+}
+// c" ++ [5760]%N)).
+Eval vm_compute in ("<<<M1802>>>" ++ check (runes_of_ascii "MetaData roots {
+}")).
+Eval vm_compute in ("<<<M310>>>" ++ check (runes_of_ascii "
+MetaData A {}
+")).
+Eval vm_compute in ("<<<M255>>>" ++ check (runes_of_ascii " /// triple")).
 Eval vm_compute in ("<<<M1050>>>" ++ check (runes_of_ascii "// c" ++ [65279]%N)).
